@@ -24,17 +24,21 @@ CLAIM = dict(
           "small double array (the 39 unary math functions also on a float array) compared BIT FOR BIT with the scalar formula evaluated in the same process with the same libm — a C++-side "
           "oracle: the model side only prints the constant expectation 'ok' (there is no Coq model of libm); (c) element types of "
           "add/subtract/multiply/divide/less/equal views over the 10x10 numeric type pairs and of sum, read off the view type and compared "
-          "with promote_cxx / bool / the operand type. NOT COVERED: view::clip and the n-ary view::ufunc with three operands do not "
+          "with promote_cxx / bool / the operand type; every ARGUMENT FORM selecting the result type — fn(a,b), casting::auto_t, casting::same_kind_t, "
+          "casting::equiv_t (add, subtract, multiply), outer_<fn>(a,b,dtype), reduce_/accumulate_<fn>(a,axis,dtype) — on int8/uint8/int16/uint16/int32/"
+          "int64/float/double with values whose exact result leaves the narrow type's range: values AND the element type of the view and of the "
+          "evaluated array are compared with the table (C07_result_type_forms: default/auto = C++ promotion, same_kind/equiv = operand type, dtype "
+          "= requested); operands with compile-time size but run-time shape (std::array buffer) evaluated under one- and two-sided broadcasting. NOT COVERED: view::clip and the n-ary view::ufunc with three operands do not "
           "instantiate in the pinned tree for any operand kind tried (static_assert; the suite's clip test is commented out of its "
-          "CMakeLists) — compile-rejected, reported in notes/C07.md; an explicitly requested dtype is modelled (result_dtype) but only "
-          "the default is corresponded."),
+          "CMakeLists) — compile-rejected, reported in notes/C07.md; view::divide, power and the other ufuncs have no result-type "
+          "argument form on their element-wise entry point."),
     ref="5.7", technique="Coq proof (on top of the C06 broadcast_to element theorem) + differential correspondence with the extracted "
                          "model; C++-side oracle for function identity", extra="")
 RULE = ("all ordered pairs of shapes dim 0..3 extents 1..3 (dim 0 = scalar), compatible or not, op / operand kind rotating; a "
         "compatible-biased stream of stretched shapes for binary, ternary (where) and outer; every function name once for the identity "
         "check; 200 sampled rank-4 pairs; 320 deferred-evaluation cases (8 composed forms x run-time / fixed shapes); every numeric type pair x op for the element-type table. non-trivial = an operand of dim >= 2 with an extent > 1; "
         "distinct = distinct case lines")
-THEOREM_STATUS = {"proved": ["C07_unary", "C07_binary_shape", "C07_binary_elem", "C07_ternary", "C07_outer", "C07_dtype_table"],
+THEOREM_STATUS = {"proved": ["C07_unary", "C07_binary_shape", "C07_binary_elem", "C07_ternary", "C07_outer", "C07_dtype_table", "C07_result_type_forms"],
                   "partial": [], "refuted": []}
 ASSUMPTIONS = ["extents are positive", "LP64 data model for the element-type table (int 32 bit, long 64 bit)",
                "identity of the scalar functions (libm) is compared in-process, not modelled"]
@@ -52,7 +56,8 @@ OPS2 = ["add", "subtract", "multiply", "lin", "lin", "less"]
 def drivers(tier):
     return {"c07": [("c07.cpp", "ndebug", ()), ("c07.cpp", "asan", ("-DVD_LIGHT",))],
             "c07i": [("c07_ident.cpp", "ndebug", ())],
-            "c07d": [("c07_dtype.cpp", "ndebug", ())]}
+            # two translation units answer the same case stream (each says "unsupported" for the other's ops): built in parallel
+            "c07d": [("c07_dtype.cpp", "ndebug", ()), ("c07_cast.cpp", "ndebug", ())]}
 
 
 def size(shape):
@@ -129,6 +134,41 @@ def gen_cases(rng, tier):
         for t1 in TYPES:
             for t2 in TYPES: out.append(("dtype", "dtype S:%s S:%s S:%s" % (op, t1, t2), "c07d"))
     for t1 in TYPES: out.append(("dtype", "dtype S:sum S:%s S:%s" % (t1, t1), "c07d"))
+    # every argument form that selects the result element type, narrow and wide element types, values whose exact result
+    # leaves the narrow type's range but never overflows the C++ arithmetic type of the operation (no UB)
+    RANGE = {"i8": (-128, 127), "u8": (0, 255), "i16": (-32768, 32767), "u16": (0, 40000), "i32": (-30000, 30000), "i64": (-30000, 30000),
+             "f32": (-2000, 2000), "f64": (-30000, 30000)}
+    def tarr(shape, t, fn):
+        lo, hi = RANGE[t]
+        if fn != "multiply" and t in ("i32", "i64", "f64"): lo, hi = -10**9, 10**9
+        return "A:%s:%s" % (",".join(map(str, shape)), ",".join(str(rng.randint(lo, hi)) for _ in range(size(shape))))
+    cshapes = [((3,), (3,)), ((2, 3), (3,)), ((2, 1), (1, 3)), ((4,), (1,)), ((2, 2), (2, 1)), ((1, 3), (2, 1, 1))]
+    for rep in range(2 if tier == "quick" else 8):
+        for fn in ("add", "subtract", "multiply"):
+            for form in ("def", "auto", "same", "equiv"):
+                for t in ("i8", "u8", "i16", "u16", "i32", "i64", "f32", "f64"):
+                    sa, sb = rng.choice(cshapes)
+                    out.append(("cast-forms", "cast S:%s S:%s S:%s %s %s" % (fn, form, t, tarr(sa, t, fn), tarr(sb, t, fn)), "c07d"))
+    OPAIRS = [("i8", "none"), ("i8", "i16"), ("i8", "i64"), ("u8", "none"), ("u8", "i32"), ("u8", "f64"), ("i16", "i8"), ("i32", "i8"), ("i32", "i64"), ("i32", "f32")]
+    for rep in range(3 if tier == "quick" else 12):
+        for fn in ("add", "multiply"):
+            for t, d in OPAIRS:
+                sa, sb = rng.choice([(2,), (3,), (2, 2)]), rng.choice([(2,), (3,)])
+                tt = "f32" if d == "f32" else t          # keep products exactly representable in float32
+                out.append(("cast-forms", "outerd S:%s S:%s S:%s %s %s" % (fn, t, d, tarr(sa, tt if fn == "multiply" else t, "multiply"),
+                                                                            tarr(sb, tt if fn == "multiply" else t, "multiply")), "c07d"))
+    for variant in ("reduce", "accum"):
+        for fn in ("add", "multiply"):
+            for t in ("i8", "u8", "i16", "u16", "i32", "i64", "f32", "f64"):
+                for d in ("none", "i8", "i16", "i32", "i64", "f32", "f64"):
+                    out.append(("dtype", "redt S:%s S:%s S:%s S:%s" % (variant, fn, t, d), "c07d"))
+    # operands with a compile-time SIZE (std::array buffer) but a run-time shape, evaluated: one- and TWO-sided broadcasting
+    K3 = [(3,), (3, 1), (1, 3), (1, 1, 3), (3, 1, 1)]; K4 = [(4,), (4, 1), (1, 4), (2, 2), (2, 1, 2), (1, 4, 1)]
+    for i in range(60 if tier == "quick" else 400):
+        na, nb = [(3, 3), (3, 4), (4, 3), (4, 4)][i % 4]
+        sa = rng.choice(K3 if na == 3 else K4); sb = rng.choice(K3 if nb == 3 else K4)
+        if i % 3 == 0: sa, sb = ((na, 1), (1, nb)) if i % 2 else ((1, na), (nb, 1))       # two-sided
+        out.append(("ct-size-kinds", "evalk S:%s I:%d I:%d %s %s" % (["add", "lin"][(i // 4) % 2], na, nb, operand(rng, sa), operand(rng, sb)), "c07d"))
     return out
 
 
